@@ -30,6 +30,7 @@ Definition check_case (c : case_t) : bool :=
   match c_tree c with
   | Some (t, s) =>
       wf_layout_b t s &&
+      Nat.eqb (err_nodes t) 0 &&      (* no recovery error was pushed, so no action built an Error node *)
       match validate t s with
       | Some errs => kinds_eqb (map ve_kind errs) (c_verrors c) && Bool.eqb (c_parse_ok c) (is_nil errs)
       | None => false
